@@ -76,7 +76,7 @@ def dispatch_worker(sub, c):
     sy = H.Sy(extra="z")
     name = H.cell_name(c)
     sub.cases += 1
-    pre = [sy.x > 0, sy.x < 1, sy.Q2 > 0] + sy.mass_pre()
+    pre = [sy.x > 0, sy.x <= 1, sy.Q2 > 0] + sy.mass_pre()
 
     def build():
         cfg = H.cell_configs(sy, c)
